@@ -60,8 +60,8 @@ def exc_matches(e, handler_names):
         if h in ("BaseException",):
             return True
         if e == "ANY":
-            if h == "Exception":
-                return True
+            # an arbitrary exception may or may not be an Exception (KeyboardInterrupt, GeneratorExit,
+            # cancellation are BaseExceptions): `except Exception` may catch it
             continue
         x = e
         seen = 0
